@@ -32,6 +32,7 @@ def sh(cmd, cwd, env=None, timeout=900):
 
 def main():
     wt = os.path.abspath(sys.argv[1])
+    tag = sys.argv[2] if len(sys.argv) > 2 else ""      # e.g. "r2" -> seeded/C04-r2-1
     out_root = os.path.join(wt, "seed_out")
     results = []
     for k in sorted(os.listdir(out_root)):
@@ -40,7 +41,7 @@ def main():
             continue
         meta = json.load(open(os.path.join(d, "meta.json")))
         prop = meta["property"]
-        name = "%s-%s" % (prop, k)
+        name = "%s-%s%s" % (prop, (tag + "-") if tag else "", k)
         tmp = tempfile.mkdtemp(prefix="gt-seed-")
         try:
             tree = os.path.join(tmp, "repo")
